@@ -204,6 +204,9 @@ int evaluate_module(void *data, const char *key, void *value) {
         ret = optional_hook(mod, MOD_EVAL);
         if (ret == 0) {
             start(mod, true);
+        } else if (ret == -1) {
+            /* on_eval() returned false: not an error; do not stop evaluating other modules */
+            ret = 0;
         }
     }
     return ret;
